@@ -18,9 +18,9 @@
   * `compile`: option checks, entry/exit, unresolved types, duplicate mapping targets,
     the append to `handlerPreNode` (fact `compileMutates`), Kahn's loop, step-limit rule.
 
-  Not modelled (kept out of the case language on both sides): input/output key options,
-  nested graphs as nodes, the contents of field mappings (an edge only says whether it has
-  mappings and to which target field), callbacks, checkpoints.
+  Not modelled here: input/output key options (Model/C20Keys.lean puts them on top), graphs as
+  nodes (Model/C20Wf.lean, Model/C20Nest.lean), the contents of field mappings (an edge only
+  says whether it has mappings and to which target field), callbacks, checkpoints.
 
   After an error the Go code may leave the maps half-updated; nothing can observe that
   (every later call returns the stored error first), so the model keeps the pre-call state
@@ -270,7 +270,7 @@ def updRound (im : Impl) : List Key → Builder → Bool → Except ErrKind (Bui
       updRound im ks { b' with toValidate := setSlice b'.toValidate s kept } (ch || ch')
 
 /-- `for { … if !hasChanged {break} }` – every changing pass removes an entry, so
-    `pendingCount + 1` passes always suffice (`update_fuel_enough` in Proofs). -/
+    `pendingCount + 1` passes always suffice (`updLoop_fix` in Proofs/C20Infer.lean). -/
 def updLoop (im : Impl) (ord : Ord) : Nat → Builder → Except ErrKind Builder
   | 0, b => .ok b
   | fuel + 1, b =>
